@@ -54,6 +54,7 @@ def strategy(tier):
         "follow": st.lists(st.tuples(st.integers(0, 15), st.integers(1, 4), st.booleans()), max_size=5).map(lambda l: [list(x) for x in l]),
         "other": st.lists(st.integers(0, 15), max_size=5),
         "zero_before_clear": st.sampled_from([0, 0, 1]),
+        "huge_count": st.sampled_from([0, 0, 0, 0, 0, 0, 0, 0, 1, 2, 6]),
     })
     base = st.one_of(
         bloom.case_strategy(tier, max_ops=20).map(tag("bloom")),
@@ -111,7 +112,13 @@ def _bloom_target(ctx, d, counting, case):
     t.obj, t.kind = o, kind
     tmp = ctx.tmpdir()
     hf = d.hf
-    exportable = o.elements_added >= 0
+    hc = case.get("huge_count") or 0
+    if hc and kind in ("bloom", "ondisk") and not counting and o.elements_added >= 0:
+        # the documented settable element counter at / just above what the footer's unsigned 64-bit field can hold: an export of
+        # such a filter may be refused (struct.error) - but refused or not, it is a query and changes nothing
+        o.elements_added = 2 ** 64 - 1 + (hc - 1)
+        ctx.feat("element_counter_at_64bit_limit" if hc == 1 else "element_counter_above_64bit_limit")
+    exportable = 0 <= o.elements_added <= 2 ** 64 - 1
     if not exportable:
         ctx.feat("saturated_setop_state_bytes_not_used")
     path = getattr(d, "path", None)
@@ -172,6 +179,18 @@ def _bloom_target(ctx, d, counting, case):
         reads += [("bytes", lambda k, dep: bytes(o)), ("export_path", exp_path), ("export_fileobj", exp_fileobj),
                   ("export_hex", lambda k, dep: o.export_hex()),
                   ("export_c_header", lambda k, dep: o.export_c_header(os.path.join(tmp, "h.h")))]
+    if not exportable and o.elements_added > 2 ** 64 - 1:
+        import struct
+
+        def tolerant(fn):
+            def run(k, dep):
+                try:
+                    return fn(k, dep)
+                except struct.error:
+                    return None
+            return run
+        reads += [("bytes_unexportable", tolerant(lambda k, dep: bytes(o))), ("export_path_unexportable", tolerant(exp_path)),
+                  ("export_hex_unexportable", tolerant(lambda k, dep: o.export_hex()))]
     if other_disk is not None:
         reads += [("arg_union_of_ondisk", lambda k, dep: other_disk.union(o)), ("arg_jaccard_of_ondisk", lambda k, dep: other_disk.jaccard_index(o)),
                   ("recv_union_ondisk", lambda k, dep: o.union(other_disk))]
